@@ -2,6 +2,7 @@ import Py4hwV.Drv.Proto
 import Py4hwV.Lib.Seq
 import Py4hwV.Lib.SeqNet
 import Py4hwV.Lib.SeqNetM
+import Py4hwV.Lib.SeqMem
 /- C09 driver: runs the block models (Lib.*) and the reference machines (Lib.Spec.*) on an input history.
      run <Block> | <params> | <step>;<step>;...          (each step: comma separated ints)
    answer:  <model trace> | <spec trace> [| <extra>]     trace = steps joined by ';', a step = outputs before the edge
@@ -16,7 +17,12 @@ import Py4hwV.Lib.SeqNetM
      net <Block> | <params> |          -> the netlist builder of Lib/SeqNet.lean rendered (kinds | regs | order | widths)
        TReg hasE,hasR   Counter w,hasReset,hasInc   StepUp w,sw,hasReset,hasInc   Delay w,delay,hasEn,hasReset   Edge dir   Srb w,depth   Stack w,depth   Pipe w0,w1,..   Reg w,dw,cw,rv,hasE,hasR
      netm <Block> | <params> | <live schedule>   -> builder of Lib/SeqNetM.lean rendered (leaves | regs | widths) | okb of the instance
-       Mod w,n   Div n,qw,hasReset -/
+       Mod w,n   Div n,qw,hasReset
+     run RamPipe | aw,dw | ra,wa,we,wd;...      Lib.ramPipe / Lib.Spec.ramPipe (Lib/SeqMem.lean)
+     nets <Name> | <params> |                   -> netlist builder with list-state leaves (Lib/SeqMem.lean) rendered
+     netrun <Name> | <params> | <step>;...      -> that netlist RUN under Net.Sim (generated leaves): per step the outputs after
+                                                   poke+clk(0) followed by the outputs after clk(1); step = values poked on wires 1,2,..
+       RamPipe aw,dw,ww (outs 8)   DpNet aw,dw (outs 5,10,11)   AmNet aw,dw (outs 5,6) -/
 open Proto Lib
 
 def g (l : List Int) (k : Nat) : Int := l.getD k 0
@@ -31,6 +37,18 @@ def both {σ τ ι ο : Type} (m : Machine σ ι ο) (sp : Machine τ ι ο) (en
 
 def one (x : Nat) : List Nat := [x]
 def two (x : Nat × Nat) : List Nat := [x.1, x.2]
+
+def netsOf (name : String) (p : List Int) : Option (SeqMem.KNetS × List Nat) :=
+  match name with
+  | "RamPipe" => some (SeqMem.ramPipeNet (gn p 0) (gn p 1) (gn p 2), [8])
+  | "DpNet" => some (SeqMem.dpNet (gn p 0) (gn p 1), [5, 10, 11])
+  | "AmNet" => some (SeqMem.amNet (gn p 0) (gn p 1), [5, 6])
+  | _ => none
+
+def netRun (K : SeqMem.KNetS) (outs : List Nat) (h : List (List Int)) : String :=
+  let D := K.netS
+  let t := SeqMem.netTrace2 D (SeqMem.pokes4 1) outs (Net.initC D.design D.st0 D.cons) (h.map fun s => s.map Int.toNat)
+  ";".intercalate (t.map fun ab => showNats (ab.1 ++ ab.2))
 
 def handle (line : String) : String :=
   match fields line with
@@ -73,6 +91,10 @@ def handle (line : String) : String :=
     | ["run", "DualPort"] =>
       both (dualPort (gn p 0) (gn p 1)) (Spec.dualPort (gn p 1)) two
         (h.map fun s => ⟨⟨gn s 0, gn s 1, gn s 2, gn s 3⟩, ⟨gn s 4, gn s 5, gn s 6, gn s 7⟩⟩)
+    | ["run", "RamPipe"] =>
+      both (ramPipe (gn p 0) (gn p 1)) (Spec.ramPipe (gn p 1)) one (h.map fun s => ⟨gn s 0, gn s 1, gn s 2, gn s 3⟩)
+    | ["nets", name] => match netsOf name p with | some (K, _) => K.render | none => "bad-op"
+    | ["netrun", name] => match netsOf name p with | some (K, outs) => netRun K outs h | none => "bad-op"
     | ["netm", "Mod"] =>
       let K := C09M.modNet (gn p 0) (gn p 1) ((parseInts hs).map Int.toNat)
       s!"{K.render} | {showBool K.okb}"
